@@ -1061,4 +1061,308 @@ theorem WSide.flushResume_idle (w : WSide) (snap : List Nat) (fut : WFut) :
   | writing t => exact WSide.writeLoop_idle snap w.script w t
   | flushing t => exact WSide.flushTail_idle w snap t
 
+
+/-! ### no panic while the caller keeps its side of the contracts -/
+
+theorem RSide.consume_nopanic {C r} (h : RInv C r) (amt : Nat) (hl : r.buf.lent = false)
+    (ha : amt ≤ r.buf.avail.length) :
+    (r.consume amt).2 ≠ .panic ∧ (r.consume amt).1.buf.lent = false := by
+  have hp := h.pos_le
+  have hc := h.len_le
+  simp only [Buf.avail, List.length_drop] at ha
+  have h1 : ¬ r.buf.cap < r.buf.pos + amt := by omega
+  have h2 : ¬ r.buf.data.length < r.buf.pos + amt := by omega
+  rw [RSide.consume_ok hl h1 h2]
+  refine ⟨by simp, ?_⟩
+  simp only
+  split
+  · rw [Buf.compactTo_lent]; exact hl
+  · exact hl
+
+theorem RSide.read_nopanic {C r} (h : RInv C r) (n : Nat) (hl : r.buf.lent = false) :
+    (r.read n).2 ≠ .panic ∧ (r.read n).1.buf.lent = false := by
+  unfold RSide.read RSide.fillBuf
+  simp only [hl, Bool.false_eq_true, if_false]
+  split
+  · rename_i av hav
+    split at hav
+    · simp at hav
+    · simp only [Res.ok.injEq] at hav
+      subst hav
+      exact RSide.consume_nopanic h _ hl (Nat.min_le_left _ _)
+  · exact ⟨by simp, hl⟩
+  · rename_i hav
+    split at hav <;> simp at hav
+
+theorem RSide.fillPoll_nopanic (r : RSide) (snap : List Nat) :
+    (r.fillPoll snap).2 ≠ some .panic ∧ ((r.fillPoll snap).2 ≠ none → (r.fillPoll snap).1.buf.lent = false) := by
+  unfold RSide.fillPoll
+  split <;> simp
+
+theorem RSide.fillDrive_nopanic : ∀ (k : Nat) (r : RSide),
+    (r.fillDrive k).2 ≠ some .panic ∧ ((r.fillDrive k).2 ≠ none → (r.fillDrive k).1.buf.lent = false)
+  | 0, r => by simp [RSide.fillDrive]
+  | k + 1, r => by
+    unfold RSide.fillDrive
+    have hp := RSide.fillPoll_nopanic r [driverTask]
+    rcases hq : r.fillPoll [driverTask] with ⟨r', o⟩
+    rw [hq] at hp
+    cases o with
+    | some res => simpa using hp
+    | none => exact RSide.fillDrive_nopanic k r'
+
+theorem RSide.fillStarted_nopanic (r1 : RSide) (k : Nat) :
+    (match r1.fillPoll [driverTask] with
+      | (r'', some res) => (r'', some res)
+      | (r'', none) => r''.fillDrive k).2 ≠ some .panic ∧
+    ((match r1.fillPoll [driverTask] with
+      | (r'', some res) => (r'', some res)
+      | (r'', none) => r''.fillDrive k).2 ≠ none →
+     (match r1.fillPoll [driverTask] with
+      | (r'', some res) => (r'', some res)
+      | (r'', none) => r''.fillDrive k).1.buf.lent = false) := by
+  have hp := RSide.fillPoll_nopanic r1 [driverTask]
+  rcases hq : r1.fillPoll [driverTask] with ⟨r', o⟩
+  rw [hq] at hp
+  cases o with
+  | some res => simpa using hp
+  | none => exact RSide.fillDrive_nopanic k r'
+
+theorem RSide.fill_nopanic (r : RSide) (budget : Nat) (hl : r.buf.lent = false) :
+    (r.fill budget).2 ≠ some .panic ∧ ((r.fill budget).2 ≠ none → (r.fill budget).1.buf.lent = false) := by
+  unfold RSide.fill
+  cases budget with
+  | zero => simp
+  | succ k =>
+    simp only
+    unfold RSide.fillStart
+    by_cases he : r.eof = true
+    · simp [he, hl]
+    · simp only [he, hl, Bool.false_eq_true, if_false]
+      by_cases hm : r.max ≤ (r.buf.compactTo r.base r.max).data.length
+      · simp [hm, Buf.compactTo_lent, hl]
+      · simp only [hm, if_false]
+        exact RSide.fillStarted_nopanic _ k
+
+theorem WSide.write_nopanic {w} (h : WInv w) (src : Bytes) :
+    (w.write src).2 ≠ .panic ∧ (w.write src).1.buf.lent = w.buf.lent := by
+  have := h.pend_le
+  unfold WSide.write
+  split
+  · simp
+  · split
+    · simp
+    · simp only
+      split
+      · split
+        · omega
+        · split
+          · simp
+          · simp [Buf.extend]
+      · simp [Buf.extend]
+
+theorem WSide.flushTail_nopanic (w : WSide) (snap : List Nat) (t : Nat) :
+    (w.flushTail snap t).2.2 ≠ some .panic ∧ (w.flushTail snap t).1.buf.lent = w.buf.lent := by
+  unfold WSide.flushTail
+  split <;> simp
+
+theorem WSide.afterFlushTo_nopanic (w : WSide) (snap : List Nat) (t : Nat) :
+    (w.afterFlushTo snap t).2.2 ≠ some .panic ∧ (w.afterFlushTo snap t).1.buf.lent = w.buf.lent := by
+  unfold WSide.afterFlushTo
+  have := WSide.flushTail_nopanic ({ w with buf := w.buf.compactTo w.base w.max }) snap t
+  simpa [Buf.compactTo_lent] using this
+
+/-- what the state of a flush future guarantees about the buffer -/
+def FutInv (w : WSide) : WFut → Prop
+  | .idle => w.buf.lent = false
+  | .writing _ => w.buf.lent = true ∧ w.buf.avail ≠ []
+  | .flushing _ => w.buf.lent = false
+
+theorem WSide.flushTail_futinv (w : WSide) (snap : List Nat) (t : Nat) (hl : w.buf.lent = false) :
+    (w.flushTail snap t).2.2 ≠ some .panic ∧ FutInv (w.flushTail snap t).1 (w.flushTail snap t).2.1 := by
+  unfold WSide.flushTail
+  split <;> simp [FutInv, hl]
+
+theorem WSide.afterFlushTo_futinv (w : WSide) (snap : List Nat) (t : Nat) (hl : w.buf.lent = false) :
+    (w.afterFlushTo snap t).2.2 ≠ some .panic ∧ FutInv (w.afterFlushTo snap t).1 (w.afterFlushTo snap t).2.1 := by
+  unfold WSide.afterFlushTo
+  exact WSide.flushTail_futinv _ snap t (by simpa [Buf.compactTo_lent] using hl)
+
+/-- the flush loop never panics on a buffer satisfying the invariant; afterwards the future state
+and the buffer agree (`FutInv`) -/
+theorem WSide.writeLoop_nopanic (snap : List Nat) : ∀ (script : List WItem) {w : WSide} (total : Nat), WInv w →
+    w.buf.avail ≠ [] →
+    (w.writeLoop snap total script).2.2 ≠ some .panic ∧
+    FutInv (w.writeLoop snap total script).1 (w.writeLoop snap total script).2.1
+  | [], w, total, h, hne => by
+    unfold WSide.writeLoop
+    have h0 : w.buf.avail.length ≠ 0 := by
+      intro h0; exact hne (List.length_eq_zero_iff.mp h0)
+    have hlen : w.buf.pos + w.buf.avail.length = w.buf.data.length := by
+      have := h.pos_le; simp [Buf.avail]; omega
+    rw [WSide.accepted_n_done _ _ _ _ h0 (by simpa using hlen) (by simpa using h.len_le)]
+    simp only
+    exact WSide.afterFlushTo_futinv _ snap _ (by simp [Buf.reset, WSide.afterSend])
+  | .p :: rest, w, total, h, hne => by
+    simp only [WSide.writeLoop]
+    exact ⟨by simp, by simpa [FutInv, Buf.avail] using hne⟩
+  | .e :: rest, w, total, h, _ => by simp [WSide.writeLoop, FutInv]
+  | .w k :: rest, w, total, h, hne => by
+    unfold WSide.writeLoop
+    have hw : WInv { w with script := rest } := by cases h; constructor <;> simpa
+    by_cases h0 : min k w.buf.avail.length = 0
+    · rw [h0, WSide.accepted_n_zero]
+      simp [WSide.afterSend, FutInv]
+    · have hle : w.buf.pos + min k w.buf.avail.length ≤ w.buf.data.length := by
+        have := h.pos_le; simp [Buf.avail]; omega
+      by_cases hd : w.buf.pos + min k w.buf.avail.length = w.buf.data.length
+      · rw [WSide.accepted_n_done _ _ _ _ h0 (by simpa using hd) (by simpa using h.len_le)]
+        simp only
+        exact WSide.afterFlushTo_futinv _ snap _ (by simp [Buf.reset, WSide.afterSend])
+      · rw [WSide.accepted_n_more _ _ _ _ h0 (by simp only; omega) (by simpa using h.len_le)]
+        simp only
+        refine WSide.writeLoop_nopanic snap rest _ (hw.afterSend_adv _ (by simpa using hle)) ?_
+        have hav : w.buf.avail.length = w.buf.data.length - w.buf.pos := by simp [Buf.avail]
+        rw [hav] at hd hle
+        simp only [Buf.avail, WSide.afterSend, WSide.wake_buf, ne_eq, List.drop_eq_nil_iff, Nat.not_le,
+          List.length_drop]
+        omega
+
+theorem WSide.flushResume_nopanic {w} (h : WInv w) (snap : List Nat) (fut : WFut) (hf : FutInv w fut) :
+    (w.flushResume snap fut).2.2 ≠ some .panic ∧ FutInv (w.flushResume snap fut).1 (w.flushResume snap fut).2.1 := by
+  cases fut with
+  | idle =>
+    simp only [FutInv] at hf
+    simp only [WSide.flushResume, WSide.flushBegin, hf, Bool.false_eq_true, if_false]
+    split
+    · exact WSide.afterFlushTo_futinv w snap 0 hf
+    · rename_i hne
+      exact WSide.writeLoop_nopanic snap w.script 0 h (by simpa using hne)
+  | writing t => exact WSide.writeLoop_nopanic snap w.script t h hf.2
+  | flushing t => exact WSide.flushTail_futinv w snap t hf
+
+theorem WSide.flushDrive_nopanic : ∀ (k : Nat) {w : WSide} (fut : WFut), WInv w → FutInv w fut →
+    (w.flushDrive fut k).2 ≠ some .panic ∧ ((w.flushDrive fut k).2 ≠ none → (w.flushDrive fut k).1.buf.lent = false)
+  | 0, w, fut, _, _ => by simp [WSide.flushDrive]
+  | k + 1, w, fut, h, hf => by
+    unfold WSide.flushDrive
+    have hp := WSide.flushResume_nopanic h [driverTask] fut hf
+    have hi := (h.flushResume [driverTask] fut).1
+    have hidle := WSide.flushResume_idle w [driverTask] fut
+    rcases hq : w.flushResume [driverTask] fut with ⟨w', fut', o⟩
+    rw [hq] at hp hi hidle
+    cases o with
+    | some res =>
+      refine ⟨by simpa using hp.1, fun _ => ?_⟩
+      have : fut' = .idle := hidle (by simp)
+      have hf' := hp.2
+      simp only at hf'
+      rw [this] at hf'
+      exact hf'
+    | none => exact WSide.flushDrive_nopanic k fut' hi hp.2
+
+
+/-- the caller's side of the contracts for one operation: `BufRead::consume(amt)` only with
+`amt ≤` what `fill_buf` shows -/
+def Contract (s : State) : Op → Prop
+  | .consume n => n ≤ s.r.buf.avail.length
+  | _ => True
+
+/-- both buffers are in place (no future was dropped while Pending, no earlier panic) -/
+def Intact (s : State) : Prop := s.r.buf.lent = false ∧ s.w.buf.lent = false
+
+theorem step_nopanic {C s} (hi : Inv C s) (hl : Intact s) (op : Op) (hc : Contract s op) :
+    (step s op).2 ≠ .panic ∧ ((step s op).2 ≠ .cancel → Intact (step s op).1) := by
+  obtain ⟨hr, hw⟩ := hi
+  have hr' := hr.clearObs
+  have hw' := hw.clearObs
+  have hlr : s.r.clearObs.buf.lent = false := hl.1
+  have hlw : s.w.clearObs.buf.lent = false := hl.2
+  unfold SyncStream.step
+  simp only
+  split
+  · exact ⟨by simp, fun _ => hl⟩
+  · cases op with
+    | read n =>
+      have := RSide.read_nopanic hr' n hlr
+      rcases hq : s.r.clearObs.read n with ⟨r', res⟩
+      rw [hq] at this
+      cases res <;> simp_all [Out.ofBytes, Intact]
+    | rbu n =>
+      have := RSide.read_nopanic hr' n hlr
+      rcases hq : s.r.clearObs.read n with ⟨r', res⟩
+      rw [hq] at this
+      cases res <;> simp_all [Out.ofBytes, Intact]
+    | fillbuf =>
+      refine ⟨?_, fun _ => ⟨hlr, hlw⟩⟩
+      unfold RSide.fillBuf
+      simp only [hlr, Bool.false_eq_true, if_false]
+      split <;> simp [Out.ofBytes]
+    | consume n =>
+      have := RSide.consume_nopanic hr' n hlr (by simpa [Contract, RSide.clearObs] using hc)
+      rcases hq : s.r.clearObs.consume n with ⟨r', res⟩
+      rw [hq] at this
+      cases res <;> simp_all [Out.ofBytes, Intact]
+    | write bs =>
+      have := WSide.write_nopanic hw' bs
+      rcases hq : s.w.clearObs.write bs with ⟨w', res⟩
+      rw [hq] at this
+      cases res <;> simp_all [Out.ofNum, Intact]
+    | flush => exact ⟨by simp, fun _ => ⟨hlr, hlw⟩⟩
+    | fill k =>
+      have := RSide.fill_nopanic s.r.clearObs k hlr
+      rcases hq : s.r.clearObs.fill k with ⟨r', res⟩
+      rw [hq] at this
+      cases res with
+      | none => simp [Out.ofDrive, hq]
+      | some x => cases x <;> simp_all [Out.ofDrive, Out.ofNum, Intact]
+    | wflush k =>
+      have := WSide.flushDrive_nopanic k .idle hw' (by simpa [FutInv] using hlw)
+      unfold WSide.flush
+      rcases hq : s.w.clearObs.flushDrive .idle k with ⟨w', res⟩
+      rw [hq] at this
+      cases res with
+      | none => simp [Out.ofDrive, hq]
+      | some x => cases x <;> simp_all [Out.ofDrive, Out.ofNum, Intact]
+    | st => exact ⟨by simp, fun _ => ⟨hlr, hlw⟩⟩
+    | parts => exact ⟨by simp, fun _ => ⟨hlr, hlw⟩⟩
+
+/-- a caller that keeps the `consume` contract and never drops a Pending `fill_read_buf` /
+`flush_write_buf` future (no operation answers `cancel`) -/
+def Disciplined : State → List Op → Prop
+  | _, [] => True
+  | s, op :: ops => Contract s op ∧ (step s op).2 ≠ .cancel ∧ Disciplined (step s op).1 ops
+
+instance (s : State) (op : Op) : Decidable (Contract s op) := by
+  cases op <;> unfold Contract <;> infer_instance
+
+instance Disciplined.dec : (s : State) → (ops : List Op) → Decidable (Disciplined s ops)
+  | _, [] => isTrue trivial
+  | s, op :: ops => by
+    unfold Disciplined
+    exact @instDecidableAnd _ _ _ (@instDecidableAnd _ _ _ (Disciplined.dec _ ops))
+
+theorem run_nopanic {C} : ∀ (ops : List Op) {s : State}, Inv C s → Intact s → Disciplined s ops →
+    Out.panic ∉ (run s ops).2
+  | [], s, _, _, _ => by simp [SyncStream.run]
+  | op :: ops, s, hi, hl, hd => by
+    simp only [SyncStream.run, List.mem_cons, not_or]
+    have := step_nopanic hi hl op hd.1
+    exact ⟨fun h => this.1 h.symm, run_nopanic ops (hi.step op) (this.2 hd.2.1) hd.2.2⟩
+
+
+theorem WSide.write_futinv {w} (h : WInv w) (src : Bytes) (fut : WFut) (hf : FutInv w fut) :
+    FutInv (w.write src).1 fut := by
+  have hl := (WSide.write_nopanic h src).2
+  cases fut with
+  | idle => simpa [FutInv, hl] using hf
+  | flushing t => simpa [FutInv, hl] using hf
+  | writing t =>
+    have : w.write src = (w, .err .wb) := by simp [WSide.write, hf.1]
+    rw [this]; exact hf
+
+theorem WSide.shutdownPoll_nopanic (w : WSide) (snap : List Nat) : (w.shutdownPoll snap).2 ≠ some .panic := by
+  unfold WSide.shutdownPoll
+  split <;> simp
+
 end Compio.SyncStream
